@@ -14,8 +14,7 @@ ToSet(s) == {s[i] : i \in 1..Len(s)}
 
 Post(p) ==
     /\ inflight' = p.inflight
-    /\ highest' = p.highest
-    /\ free' = p.free
+    /\ avail' = ToSet(p.avail)
     /\ orphans' = ToSet(p.orphans)
     /\ {<<i, reqs'[i]>> : i \in DOMAIN reqs'} = ToSet(p.reqs)
     /\ srv' = ToSet(p.srv)
